@@ -338,10 +338,15 @@ class Labels:
         return {'l': self.n, 'd': d}
 
 
+CLOSURE_BIAS = [False]
+
+
 def pick_val(r, f20_ok):
     """comparison value for a condition: mostly clean, sometimes inside the F20 region"""
     while True:
         d = r.choice(POOL) if r.random() < 0.8 else gen_value(r)
+        if CLOSURE_BIAS[0] and d_inlined(d) and r.random() < 0.85:
+            continue                      # this class prefers values bound through closure variables
         c = {'op': '==', 'val': {'l': 0, 'd': d}}
         if cond_f20a(c) and not f20_ok:
             continue
@@ -453,6 +458,9 @@ def cls_cases(ctx):
         k = r.choice([1, 2, 3, 3, 4, 4, 5, 6]) if ci % 9 else 6
         wizard = r.choice(['json', 'json', 'json', 'json', 'plain', 'env'])
         f20_ok = r.random() < 0.05
+        CLOSURE_BIAS[0] = r.random() < 0.25
+        if CLOSURE_BIAS[0]:
+            wizard = r.choice(['json', 'plain', 'env'])
         names = r.sample(NAMES, k)
         meta = {}
         if r.random() < 0.5:
@@ -499,6 +507,7 @@ def cls_cases(ctx):
                     iv.append(L.new(r.choice(POOL) if r.random() < 0.8 else gen_value(r)))
             insts.append(iv)
         Es = [None] + [[nm for j, nm in enumerate(names) if mask >> j & 1] for mask in range(2 ** k)] + [[names[0], 'zz']]
+        CLOSURE_BIAS[0] = False
         cases.append({'stream': 'cls', 'wizard': wizard, 'fields': fields, 'meta': meta, 'instances': insts,
                       'Es': Es, 'ss': [None, True, False]})
     return cases
@@ -552,22 +561,25 @@ def check_call(c, rec, call):
     if call['evaluate_mismatch']:
         return ('Condition.evaluate disagrees with the Python operator on %r' % (call['evaluate_mismatch'][:3],), None)
     kinds = {cond_f20a(k) for _w, k in compiled_conds(c)}
+    lazy = exp['lazy'].get('keys', 'raises TypeError')
     if 'err' in got:
-        if got['err'] == 'TypeError' and call['eager_raises']:
+        if got['err'] == 'TypeError' and any('raise' in f['acc'] for f in exp['fields']):
             return None
         if got['err'] == 'SyntaxError' and 'syntax' in kinds:
             return ('dump raises SyntaxError (a comparison value is inlined as a non-expression)', F20A)
         if got['err'] == 'NameError' and 'name' in kinds:
             return ('dump raises NameError (nan/inf inlined inside a tuple)', F20A)
-        return ('dump raises %s: %s; reference: %r' % (got['err'], got.get('msg'), exp), None)
-    if 'keys' not in exp:
-        return ('dump returned keys %r although an evaluated comparison raises %s' % (got['keys'], exp['raises']), None)
-    if got['keys'] != exp['keys']:
-        diff = set(got['keys']) ^ set(exp['keys'])
-        if diff and diff <= f20b_fields(c) and \
-                [k for k in got['keys'] if k not in diff] == [k for k in exp['keys'] if k not in diff]:
-            return ('keys %r, reference %r (`is` against an inlined copy of the value)' % (got['keys'], exp['keys']), F20B)
-        return ('keys %r, reference selection %r' % (got['keys'], exp['keys']), None)
+        return ('dump raises %s: %s; reference selection: %r' % (got['err'], got.get('msg'), lazy), None)
+    known = [f['key'] for f in exp['fields']]
+    if any(k not in known for k in got['keys']) or len(set(got['keys'])) != len(got['keys']):
+        return ('keys %r are not keys of the class %r' % (got['keys'], known), None)
+    if got['keys'] != [k for k in known if k in got['keys']]:
+        return ('keys %r not in field order %r' % (got['keys'], known), None)
+    wrong = [f['key'] for f in exp['fields'] if ('keep' if f['key'] in got['keys'] else 'omit') not in f['acc']]
+    if wrong:
+        if set(wrong) <= f20b_fields(c):
+            return ('keys %r, reference selection %r (`is` against an inlined copy of the value)' % (got['keys'], lazy), F20B)
+        return ('keys %r, reference selection %r (wrong: %r)' % (got['keys'], lazy, wrong), None)
     base = rec.get('baseline')
     if base is not None:
         by_key = {f['key']: f['name'] for f in c['fields']}
@@ -714,7 +726,7 @@ def sem_stream(ctx):
         ctx.count(1, key='val:%d' % i, nontrivial=d['t'] in ('tuple', 'list', 'dict', 'float', 'str', 'tok'))
         ctx.hist('value_type', d['t'] + (':nonfinite' if d_nonfinite(d) else ''))
         # direct: the documented is_builtin rule
-        if v['is_builtin'] != d_inlined(d):
+        if v['is_builtin'] != d_inlined(d) and sum(1 for x in ctx.violations) < 6:
             ctx.violation('is_builtin(%s) = %r, documented rule gives %r' % (json.dumps(d)[:80], v['is_builtin'], d_inlined(d)),
                           {'kind': 'is_builtin', 'value': d})
         if model is not None:
@@ -733,7 +745,7 @@ def sem_stream(ctx):
         p = res['pairs'][k]
         ctx.count(1, key='pair:%d:%d' % (i, j), nontrivial=True)
         # direct: Condition.evaluate is the Python operator
-        if p['evaluate'] != p['python']:
+        if p['evaluate'] != p['python'] and sum(1 for x in ctx.violations) < 6:
             ctx.violation('Condition.evaluate differs from the Python operator on (%s, %s): %r vs %r'
                           % (json.dumps(pool[i])[:60], json.dumps(pool[j])[:60], p['evaluate'], p['python']),
                           {'kind': 'evaluate', 'a': pool[i], 'b': pool[j]})
@@ -800,7 +812,7 @@ def run(ctx):
     ci = next((i for i, c in enumerate(cases) if c['stream'] == 'cls' and len(c['fields']) >= 3), 0)
     if 'instances' in impl_cases[ci]:
         ctx.sample({'class_source': impl_cases[ci].get('class_source'), 'generated': impl_cases[ci].get('source_text'),
-                    'first_calls': [{'E': E, 's': s, 'got': call['got'].get('keys', call['got'].get('err')), 'reference': call['exp']}
+                    'first_calls': [{'E': E, 's': s, 'got': call['got'].get('keys', call['got'].get('err')), 'reference': call['exp']['lazy']}
                                     for (E, s), call in list(zip([(E, s) for E in cases[ci]['Es'] for s in cases[ci]['ss']],
                                                                  impl_cases[ci]['instances'][0]['calls']))[:6]]})
 
